@@ -3,6 +3,6 @@ CONSTANTS
   MaxN = 6
   T = 2
 SPECIFICATION Spec
-INVARIANTS BuildInv TableExact GetExact AllRowsExact BranchShape FindInv WalkInv FindIsPsi
+INVARIANTS BuildInv TableExact GetExact AllRowsExact BranchShape OccRowLemma FindInv WalkInv FindIsPsi
 PROPERTY Progress
 CHECK_DEADLOCK FALSE
